@@ -391,3 +391,58 @@ def fam_markers():
                   dict(name="B", items=recs("B", ctxs) + [("go", "A", [(kind, "x", None, None, False)])])]
         yield ("markers/%s/negated" % kind,
                dict(tick=0.125, inits=[("x", 0)], framers=[dict(name="m", schedule="active", frames=frames)]), dict())
+
+
+# ------------------------------------------------------------------------------- C12 clones
+
+def moot_counter(name="mo", inner=None):
+    """moot framer using framer-, frame-, main-relative data and optionally an inner insular clone."""
+    ctxs = ("enter", "exit", "recur")
+    a_items = recs("a", ctxs) + [("put", "enter", 0, "cnt of framer"), ("put", "enter", 5, "lim of frame"),
+                                 ("put", "enter", 0, "ticks of framer"),
+                                 ("inc", "recur", "cnt of framer", 1),
+                                 ("go", "next", [("recurred", ">=", 2, False), ("cmp", "go of framer main", "==", 1, None, False)])]
+    if inner:
+        a_items.insert(len(recs("a", ctxs)), ("auxclone", inner, "mine"))
+    b_items = recs("b", ctxs) + [("inc", "enter", "total of frame main", 1), ("done", "enter", None)]
+    return dict(name=name, schedule="moot", frames=[dict(name="a", items=a_items), dict(name="b", items=b_items)])
+
+
+def moot_leaf(name="le"):
+    ctxs = ("enter", "exit", "recur")
+    return dict(name=name, schedule="moot", frames=[
+        dict(name="p", items=recs("p", ctxs) + [("put", "enter", 1, "seen of framer"), ("inc", "recur", "ticks of framer main", 1), ("repeat", 1)]),
+        dict(name="q", items=recs("q", ctxs) + [("done", "enter", None)])])
+
+
+def fam_clones():
+    ctxs = ("enter", "exit", "recur")
+    GO = ("cmp", "env.e0", "==", 1, None, False)
+    # build-time clones: 1..3 clones of the same moot, named / insular, in one frame or spread over two frames, nested or not
+    for nested in (False, True):
+        moots = [moot_counter("mo", inner="le" if nested else None), moot_leaf("le")]
+        for tags in (("c1",), ("mine",), ("c1", "c2"), ("c1", "mine"), ("mine", "mine"), ("c1", "c2", "mine")):
+            for spread in (False, True):
+                f0 = recs("f0", ctxs) + [("put", "enter", 0, "go of framer"), ("put", "enter", 0, "ticks of framer"),
+                                          ("put", "enter", 0, "total of frame")]
+                f1 = recs("f1", ctxs) + [("put", "enter", 0, "total of frame")]
+                for i, t in enumerate(tags):
+                    (f1 if (spread and i % 2) else f0).append(("auxclone", "mo", t))
+                f0 += [("put", "recur", 1, "go of framer"), ("go", "f1", [E0]), ("go", "me", [E1])]
+                f1 += [("go", "f0", [("auxdone", "all", None, False), E1])]
+                prog = dict(tick=0.125, inits=list(ENV_INITS),
+                            framers=[dict(name="m", schedule="active", frames=[dict(name="f0", items=f0), dict(name="f1", items=f1)])] + moots)
+                yield ("clones/%s/%s/%s" % ("nested" if nested else "flat", "+".join(tags), "spread" if spread else "one"), prog, dict())
+    # run-time clones: rear into frame f1 from f0, raze from f2
+    moots = [moot_counter("mo"), moot_leaf("le")]
+    for nrear in (1, 2, 3):
+        for who in ("all", "first", "last"):
+            for rear_ctx in ("enter", "recur"):
+                f0 = recs("f0", ctxs) + [("put", "enter", 1, "go of framer"), ("put", "enter", 0, "ticks of framer")] + \
+                     [("rear", rear_ctx, "mo" if i % 2 == 0 else "le", "f1") for i in range(nrear)] + [("go", "f1", [E0])]
+                f1 = recs("f1", ctxs) + [("put", "enter", 0, "total of frame"), ("go", "f2", [E1])]
+                f2 = recs("f2", ctxs) + [("raze", "enter", who, "f1"), ("go", "f0", [E0]), ("go", "f1", [E1])]
+                prog = dict(tick=0.125, inits=list(ENV_INITS),
+                            framers=[dict(name="m", schedule="active", frames=[dict(name="f0", items=f0), dict(name="f1", items=f1),
+                                                                             dict(name="f2", items=f2)])] + moots)
+                yield ("clones/rear%d/raze-%s/%s" % (nrear, who, rear_ctx), prog, dict())
